@@ -45,7 +45,8 @@ def check_grad(op, case, rec, f64_tol=1e-5, f32_tol=2e-3):
     which = [i for i, r in enumerate(rg) if r]
     try:
         sc = float(case.get("scale", 1.0))
-        want = fd.fd_vjp(f, ops.arrays(case), g, which, hscale=sc)
+        hs = max(sc, op.fd_hscale(args)) if op.fd_hscale is not None else sc
+        want = fd.fd_vjp(f, ops.arrays(case), g, which, hscale=hs)
     except fd.FwdDtype:
         rec.skip = "fwd_not_float64"
         return
